@@ -341,7 +341,16 @@ func (e *Enc) binop(st *State, op token.Token, a, b *Val, xt types.Type, rt type
 		case token.LSS, token.GTR, token.LEQ, token.GEQ:
 			return boolVal(e.s.Fresh("fcmp", "Bool"))
 		}
-		return intVal(rt, e.s.Fresh("fop", "Int"))
+		r := e.s.Fresh("fop", "Int")
+		if op == token.QUO {
+			// the quotient of two floats that hold converted integers is remembered (see fltRec)
+			fx, okx := e.flt[x]
+			fy, oky := e.flt[y]
+			if okx && oky && fx.kind == "int" && fy.kind == "int" {
+				e.flt[r] = fltRec{kind: "quo", a: fx.a, b: fy.a}
+			}
+		}
+		return intVal(rt, r)
 	}
 	switch op {
 	case token.LSS:
@@ -525,6 +534,20 @@ func (e *Enc) convert(st *State, v *Val, from, to types.Type) *Val {
 	// string <-> []byte, int -> string, float conversions: uninterpreted result
 	r := e.fresh(to, "conv")
 	e.assume(st, e.wf(r, st.alloc))
+	if fok && isFloat(to) && !isFloat(from) && !isString(from) {
+		// float64(n): the float is an opaque value, but it is remembered which integer it was converted from
+		e.flt[r.term()] = fltRec{kind: "int", a: v.term()}
+	}
+	if tok && isFloat(from) && !isFloat(to) && tb >= 64 {
+		if f, ok := e.flt[v.term()]; ok && f.kind == "ceilquo" {
+			// uint64(math.Ceil(float64(a) / float64(b))) with 0 <= a, 0 < b and a + b < 2^53: both conversions are
+			// exact, the rounded quotient cannot reach the next integer (the gap 1/b to it exceeds half the spacing
+			// of doubles near a/b because a + 1 < 2^53), so the result is the integer ceiling of a / b
+			e.assume(st, fmt.Sprintf("(=> (and (>= %s 0) (> %s 0) (< (+ %s %s) %s)) (= %s (div (+ %s %s (- 1)) %s)))",
+				f.a, f.b, f.a, f.b, pow2(53), r.term(), f.a, f.b, f.b))
+			e.note("uint64(math.Ceil(float64(a)/float64(b))) modelled as the integer ceiling of a/b for a + b < 2^53 (IEEE-754 double semantics assumed)")
+		}
+	}
 	if isString(from) && kindOf(to) == KSlice {
 		e.assume(st, fmt.Sprintf("(= %s (strlen %s))", r.S[1], v.term()))
 		// fresh memory
